@@ -10,7 +10,10 @@
 From Coq Require Import List NArith.
 From Coq Require Import Permutation.
 From Jamm Require Import Bytes Codec Tree Spec Cursor SearchFacts CursorFacts SeekFacts CodecFacts.
-From Jamm Require Engine EngineAbs SpecPath EngineFacts EngineMergeFacts EngineModifyFacts EnginePathFacts EngineSpillFacts SpecPathFacts EngineRebalanceFacts EngineBridgeFacts.
+From Jamm Require Engine EngineAbs SpecPath EngineFacts EngineMergeFacts EngineModifyFacts EnginePathFacts EngineSpillFacts SpecPathFacts EngineRebalanceFacts EngineBridgeFacts EnginePins.
+From Jamm Require Consts CLayout.
+From Coq Require String.
+Import Coq.Strings.String.StringSyntax. Delimit Scope string_scope with string.
 Import ListNotations.
 
 Theorem C01_partial_get : forall t k, wf_tree t = true ->
@@ -188,3 +191,12 @@ Theorem C01_partial_spill_bucket_root : forall (d : Engine.disk) (keep live : li
      EngineAbs.page_ents F (EngineSpillFacts.apply_wr (Engine.wr s'') P d) p = l).
 Proof. exact EngineBridgeFacts.spill_bucket_root_view. Qed.
 Print Assumptions C01_partial_spill_bucket_root.
+
+(* ---- the tie of the engine model's thresholds and sizes to the source: the literals of model/Engine.v equal the
+   constants the translator reads from /repo on this run ---- *)
+Theorem C01_engine_constants_from_source :
+  (Consts.min_keys = 2 /\ Consts.merge_div = 4 /\ Consts.fill_num = 1 /\ Consts.fill_den = 2 /\ Consts.split_min_mult = 2 /\
+   CLayout.sizeof "Page"%string = 40 /\ CLayout.sizeof "LeafElement"%string = 32 /\ CLayout.sizeof "BranchElement"%string = 24 /\
+   CLayout.sizeof "BucketMeta"%string = 16)%N.
+Proof. exact EnginePins.engine_constants_pinned. Qed.
+Print Assumptions C01_engine_constants_from_source.
